@@ -148,7 +148,7 @@ func scnCtor(kind, format string, payload []byte) (core.Provider, string) {
 			return nil, "end=ctor-err"
 		}
 		return c.p, ""
-	case <-time.After(10 * time.Second):
+	case <-time.After(wd(10 * time.Second)):
 		return nil, "end=hang"
 	}
 }
@@ -208,7 +208,7 @@ func runScnWeights(kv map[string]string) string {
 	var end string
 	select {
 	case end = <-runDone:
-	case <-time.After(10 * time.Second):
+	case <-time.After(wd(10 * time.Second)):
 		return "end=hang"
 	}
 	if end != "ok" {
@@ -234,7 +234,7 @@ func runScnWeights(kv map[string]string) string {
 			parts[i] = n + ":" + strconv.Itoa(a.counts[n])
 		}
 		return "names=" + strings.Join(parts, ",") + " end=ok"
-	case <-time.After(5 * time.Second):
+	case <-time.After(wd(5 * time.Second)):
 		// Run returned but the sink was never closed
 		return "end=hang"
 	}
